@@ -131,6 +131,9 @@ pub enum TokenKind {
     RBracket,
     Underscore,
 
+    /// A character that is not part of the language (the parser reports it)
+    Unknown(char),
+
     // End of input
     Eof,
 }
@@ -193,7 +196,8 @@ impl<'a> Lexer<'a> {
             Some(c) if c.is_alphabetic() || c == '_' => self.read_identifier(c),
 
             None => TokenKind::Eof,
-            _ => TokenKind::Eof,
+            // Not end of input: everything after an unexpected character used to be dropped
+            Some(c) => TokenKind::Unknown(c),
         };
 
         Token {
